@@ -102,12 +102,25 @@ func init() {
 		mr.Shape, mr.AutoPct = "mutualremove", 50
 		rc := o
 		rc.Shape = "requirechain"
+		// histories with a recovered panic (the recovery paths rebuild the active list)
+		faulty := func(r *Rng) (string, *HistInput) {
+			f := o
+			f.VetoPct, f.MinStates = 5, 3
+			in := genHistory(r, f)
+			for len(in.Actions) < 24 {
+				in.Actions = append(in.Actions, HAction{Ret: true})
+			}
+			for k := 0; k < r.Range(1, 2); k++ {
+				in.Actions[r.Intn(24)].Fault = "panic"
+			}
+			return "faults", in
+		}
 		reruns := 64
 		if c.Thorough() {
 			reruns = 256
 		}
 		return runHistCasesRerun(c, "C11", "EvalC11",
-			[]func(r *Rng) (string, *HistInput){histGen("autos", au), histGen("mutualremove-autos", mr), histGen("requirechains", rc), histGen("random", o)},
+			[]func(r *Rng) (string, *HistInput){histGen("autos", au), histGen("mutualremove-autos", mr), histGen("requirechains", rc), histGen("random", o), faulty},
 			250, 5000, reruns,
 			"each case is executed 64 (thorough: 256) times in fresh machines built from the same schema and state "+
 				"order; results, machine time after every step and the handler call sequence must be identical across "+
